@@ -320,3 +320,22 @@ package f3
 //@   at Purge 1
 //@     before[only_entries_more_than_five_instances_behind_the_certificate_are_purged] cert.GPBFTInstance > 5 && arg(1) == cert.GPBFTInstance - 5 && arg(0) == h.wal
 
+
+// C15: "each tipset carries the CID of EC's power table at that tipset": the CID cache is keyed by the full tipset key,
+// a miss asks EC for the table of exactly that tipset, and what is cached under the key is the CID of that table.
+//@ func (*gpbftInputs).getPowerTableCIDForTipset
+//@   property C15
+//@   modifies auto
+//@   maypanic
+//@   at Get 1
+//@     before[the_cache_is_asked_with_the_full_tipset_key] arg(0) == h.ptCache && arg(1) == sTSK && len(sTSK) == len(tsk)
+//@   at GetPowerTable 1
+//@     before[a_miss_asks_ec_for_the_table_of_exactly_that_tipset] arg(1) == tsk && !res(Get, 1, 1)
+//@   at MakePowerTableCID 1
+//@     before[the_cid_is_that_of_ecs_table] arg(0) == res(GetPowerTable, 1, 0) && res(GetPowerTable, 1, 1) == nil
+//@   at Add 1
+//@     before[cached_under_the_same_full_key] arg(0) == h.ptCache && arg(1) == sTSK && arg(2) == res(MakePowerTableCID, 1, 0) && res(MakePowerTableCID, 1, 1) == nil
+//@   at return 1
+//@     before[a_hit_returns_the_cached_cid] res(Get, 1, 1) && arg(0) == res(Get, 1, 0) && arg(1) == nil
+//@   at return 4
+//@     before[a_miss_returns_the_computed_cid] arg(0) == res(MakePowerTableCID, 1, 0) && arg(1) == nil
